@@ -207,6 +207,8 @@ struct RefMem {
     pending: Vec<(usize, u32)>,
     /// (path, instant): the path was in the slot when a failure report lying on it was consumed
     hit_in_slot: Vec<(usize, u32)>,
+    /// expiry p1 carried the last time a lookup returned it (profile "same")
+    p1_last_returned: Option<u32>,
 }
 impl RefMem {
     /// age of the youngest report (consumed or not) that lies on path `id`
@@ -353,9 +355,11 @@ impl World {
         let clamp = |a: i64| a.min(600);
         let ic: Vec<String> = o.icache.iter().map(|(i, t)| format!("{i:x}:{}", clamp(now - t))).collect();
         let ff: Vec<String> = o.fifo.iter().map(|(i, t)| format!("{i:x}:{}:{}", clamp(now - t), o.icache.iter().any(|(ci, ct)| ci == i && ct == t) as u8)).collect();
+        // reference memory that drives the "same" profile, as far as the subject state does not determine it
+        let same: Option<i64> = self.mem.p1_last_returned.filter(|_| SAME_IN_ALPHABET.load(std::sync::atomic::Ordering::Relaxed)).filter(|e| !o.cache.iter().any(|(i, ce, _)| *i == 0 && *ce == Some(*e))).map(|e| (e as i64 - now).max(0));
         let pend: Vec<String> = self.mem.pending.iter().map(|(k, t)| format!("{k}@{}", now - *t as i64)).collect();
         format!(
-            "{}|{order}|{:?}|{}|{}|{}|{:?}|{:?}|{:?}|{}|{}",
+            "{}|{order}|{:?}|{}|{}|{}|{:?}|{:?}|{:?}|{}|{}|{:?}",
             self.cfg.name,
             o.slot.as_ref().map(|s| (s.id, s.expiry.map(|e| e as i64 - now))),
             o.next_refetch - now,
@@ -365,7 +369,8 @@ impl World {
             ff,
             pend,
             o.undelivered,
-            self.late_used as u8
+            self.late_used as u8,
+            same
         )
     }
 
@@ -599,7 +604,7 @@ impl World {
         let before_ids: Vec<usize> = before.cache.iter().map(|c| c.0).collect();
         let res: Result<Vec<_>, ()> = match o.set {
             Set::Err => Err(()),
-            s => Ok(s.ids().iter().map(|id| path_of(*id, expiry_of(o, *id, t, &self.cfg.prof))).collect()),
+            s => Ok(s.ids().iter().map(|id| path_of(*id, expiry_of(o, *id, t, &self.cfg.prof, self.mem.p1_last_returned))).collect()),
         };
         let calls_before = {
             let mut g = self.script.0.lock().unwrap();
@@ -623,8 +628,13 @@ impl World {
         self.stats.ticks += 1;
         self.stats.lookups += calls_after - calls_before;
         // reference memory
+        let mut returned_valid = false;
         if o.set != Set::Err {
-            let res: Vec<(usize, u32)> = o.set.ids().iter().map(|id| (*id, expiry_of(o, *id, t, &self.cfg.prof))).collect();
+            let res: Vec<(usize, u32)> = o.set.ids().iter().map(|id| (*id, expiry_of(o, *id, t, &self.cfg.prof, self.mem.p1_last_returned))).collect();
+            returned_valid = res.iter().any(|(id, e)| ref_policy_allows(*id) && UNIVERSE[*id].has_meta && *e > t);
+            if let Some((_, e)) = res.iter().find(|(id, _)| *id == 0) {
+                self.mem.p1_last_returned = Some(*e);
+            }
             self.mem.ever.extend(res.iter().copied());
             // "successful path lookup" = one that yielded at least one policy-acceptable path
             if res.iter().any(|(id, _)| ref_policy_allows(*id)) {
@@ -640,6 +650,15 @@ impl World {
             self.mem.pending = pending;
         }
         let after = if watch { self.observe() } else { Obs::default() };
+        // C06: a lookup that just returned an acceptable, unexpired path must leave the sender with a path
+        if self.checking && returned_valid && after.handed.is_none() {
+            let late = if self.late_used { "+late-tick" } else { "" };
+            self.push(
+                "C06",
+                format!("no-path-right-after-lookup-that-returned-a-valid-path{late}"),
+                format!("lookup at t+{} returned [{}] with an acceptable unexpired path, yet the sender is handed nothing (cache {:?}, failed_attempts {}, error {:?})", t - T0, o.label(), after.cache, after.failed, after.err),
+            );
+        }
         // C06 schedule oracle
         if self.checking {
             if calls_after - calls_before != 1 || left != 0 {
@@ -898,6 +917,8 @@ impl World {
     }
 }
 
+/// set while a phase whose alphabet contains the "same" expiry profile is explored
+pub static SAME_IN_ALPHABET: std::sync::atomic::AtomicBool = std::sync::atomic::AtomicBool::new(true);
 pub static MAX_BRANCH_TICKS: std::sync::atomic::AtomicUsize = std::sync::atomic::AtomicUsize::new(1);
 
 /// Execute a history on a fresh real object. Oracles run on the last step only (every prefix was
